@@ -721,14 +721,33 @@ def run(ctx):
         for name in wsgi.AUTH_DIGEST_ALGORITHMS:
             wsgi.AUTH_DIGEST_ALGORITHMS[name] = fake_hash(
                 "M" if name.startswith("MD5") else "S")
-        cases, pcases, seen = [], [], {}
-        terms = Terms()
+        from urllib.parse import unquote as py_unquote
+        app0 = new_app(secret_key="k")
+
+        def parse_case(raw, hterm):
+            got = Request(environ(headers={"Authorization": raw},
+                                  extra={"REQUEST_STARTTIME": 0.0}),
+                          app0).authorization
+            typ = got.pop("type")
+            head = raw.strip()
+            payload = {"kind": "parse", "authorization": raw[:600]}
+            ctx.case(("parse", raw[:3000]), True)
+            ctx.count("model:parse")
+            if head[:head.find(" ")].isascii():
+                return ("run_parse %s" % hterm, [typ, got], payload)
+            return ("run_parse_fields %s" % hterm, got, payload)
+
+        # quick: one batch of Coq case files for all worlds (shards run in
+        # parallel); thorough: one batch per world, so that a shard only
+        # carries the definitions of its own world
+        batches = []
+        cases, seen, terms = [], {}, Terms()
         for wnum, world in enumerate(worlds_for(clock, ctx.quick, True)):
             tmo = world.timeout or 300
             base_t = ((epoch // tmo) * tmo + (wnum % 3) * tmo // 3) * 10 ** 6 \
                 + 500000
             wname = terms.define("W", world.env_prefix())
-            big = 20000 if not ctx.quick else (4000 if wnum == 0 else 300)
+            big = (20000 if not ctx.quick else 4000) if wnum == 0 else 300
             for (label, method, path, query, agent, text, t_us) in scenarios(
                     world, ctx.rng, ctx.quick, base_t, big):
                 raw = None if text is None else lat(text)
@@ -750,34 +769,30 @@ def run(ctx):
                     "t_us": t_us, "impl": observed(obs),
                     "raised": obs["raised"]}))
                 ctx.count("model:" + label.split(":")[0])
+                ctx.case(("gate", label, world.alg, world.qop, world.realm,
+                          None if raw is None else raw[:3000], t_us, method,
+                          path), True, {"label": label, "impl": observed(obs)})
                 if raw is not None and raw not in seen:
                     seen[raw] = hterm
-        for term, exp, payload in cases:
-            ctx.case(("gate", payload["label"], payload["alg"],
-                      payload["qop"], payload["authorization"],
-                      payload["t_us"], payload["method"], payload["path"]),
-                     True, {"label": payload["label"], "impl": exp})
-
-        # ------------------------- correspondence: tokenizer and unquote
-        app = new_app(secret_key="k")
-        texts = list(seen)
+            if not ctx.quick:
+                batches.append((terms, cases, seen))
+                cases, seen, terms = [], {}, Terms()
         if ctx.quick:
-            texts = ctx.rng.sample(texts, min(len(texts), 500))
-        junk = garbage(ctx.rng, 500 if ctx.quick else 6000)
-        for raw in texts + junk:
-            got = Request(environ(headers={"Authorization": raw},
-                                  extra={"REQUEST_STARTTIME": 0.0}),
-                          app).authorization
-            typ = got.pop("type")
-            head = raw.strip()
-            hterm = seen.get(raw) or slit(raw)
-            payload = {"kind": "parse", "authorization": raw[:600]}
-            if head[:head.find(" ")].isascii():
-                pcases.append(("run_parse %s" % hterm, [typ, got], payload))
-            else:
-                pcases.append(("run_parse_fields %s" % hterm, got, payload))
+            batches.append((terms, cases, seen))
+        for bnum, (terms, cases, seen) in enumerate(batches):
+            texts = list(seen)
+            if ctx.quick:
+                texts = ctx.rng.sample(texts, min(len(texts), 500))
+            elif len(texts) > 900:
+                texts = ctx.rng.sample(texts, 900)
+            pcases = [parse_case(raw, seen[raw]) for raw in texts]
+            ctx.correspondence("model%d" % bnum, terms.prelude(),
+                               cases + pcases, lambda p: p)
+
+        # --------------- tokenizer on random texts, unquote on random texts
+        pcases = [parse_case(raw, slit(raw))
+                  for raw in garbage(ctx.rng, 500 if ctx.quick else 6000)]
         ucases = []
-        from urllib.parse import unquote as py_unquote
         pool = ["%", "%4", "%41", "%C3%A9", "%c3", "%A9", "%E2%82%AC", "%e2%82",
                 "%F0%9F%98%80", "%f0%9f", "%ED%A0%80", "%C0%80", "%FF", "a",
                 "/", "?", "\xe9", "\u20ac", "%zz", "%%", "%2", "+", "%00",
@@ -787,13 +802,9 @@ def run(ctx):
                            for _ in range(ctx.rng.randint(0, 8)))
             ucases.append(("run_unquote %s" % slit(text), py_unquote(text),
                            {"kind": "unquote", "text": text}))
-        ctx.correspondence("model", terms.prelude(), cases + pcases + ucases,
-                           lambda p: p)
-        for _, _, payload in pcases + ucases:
-            ctx.case((payload["kind"], payload.get("authorization"),
-                      payload.get("text")), True)
-        ctx.count("model:parse", len(pcases))
+            ctx.case(("unquote", text), True)
         ctx.count("model:unquote", len(ucases))
+        ctx.correspondence("random", IMPORTS, pcases + ucases, lambda p: p)
 
         # -------------------------------------------- monitor, real hashes
         session.sha256, digest.sha256, results.sha256 = saved[1:4]
